@@ -28,6 +28,7 @@ import (
 	"regexp"
 	"runtime/debug"
 	"sort"
+	"strconv"
 	"strings"
 	"sync"
 	"sync/atomic"
@@ -51,6 +52,7 @@ import (
 	slov1alpha1 "github.com/koordinator-sh/koordinator/apis/slo/v1alpha1"
 	"github.com/koordinator-sh/koordinator/pkg/slo-controller/noderesource/framework"
 	"github.com/koordinator-sh/koordinator/pkg/util"
+	"github.com/koordinator-sh/koordinator/pkg/util/sloconfig"
 	"github.com/koordinator-sh/koordinator/pkg/zzverif/mc"
 )
 
@@ -93,6 +95,52 @@ type c09Case struct {
 	AgeSec    int64    `json:"metricAgeSeconds"`      // -1 = UpdateTime nil
 	Degrade   int64    `json:"degradeMinutes"`
 	Zones     int      `json:"zones"` // 0 = no NodeResourceTopology, 2 = two equal zones
+	// Layer != nil: the reclaim percentage reaches the plugin the way the controller delivers it, through
+	// sloconfig.GetNodeColocationStrategy (cluster strategy <- node annotation <- node label); Reclaim then holds the
+	// percentage the documented precedence puts in force (label, if it is a float >= 0, over annotation over cluster)
+	Layer *c09Layer `json:"reclaimLayers,omitempty"`
+}
+
+// c09Layer: where the node's reclaim percentage (100 - safety margin) comes from.
+type c09Layer struct {
+	Cluster int64  `json:"cluster"`    // slo-controller-config cluster strategy
+	Anno    int64  `json:"annotation"` // node annotation colocation-strategy, -1 = none
+	Label   string `json:"label"`      // node labels cpu-/memory-reclaim-ratio, "" = none
+}
+
+// effective is the harness' own reading of apis/extension/node_colocation.go: the label "takes precedence to the
+// percent in the slo-controller-config and the node annotations", "the value is a float number", "the illegal value
+// will be ignored" (a negative ratio is illegal; 0 is a ratio like any other: nothing may be reclaimed).
+func (l *c09Layer) effective() int64 {
+	if l.Label != "" {
+		if v, err := strconv.ParseFloat(l.Label, 64); err == nil && v >= 0 {
+			return int64(v * 100)
+		}
+	}
+	if l.Anno >= 0 {
+		return l.Anno
+	}
+	return l.Cluster
+}
+
+// c09Layers, ordered by rising safety margin (falling percentage in force); label ratios are binary fractions, so that
+// ratio*100 is exact
+var c09Layers = []c09Layer{
+	{60, -1, "1.0"}, {60, 40, "1"},
+	{60, -1, ""}, {60, -1, "-1"}, {60, -1, "abc"},
+	{60, 40, "0.5"},
+	{60, 40, ""}, {60, 40, "-0.5"},
+	{60, -1, "0.25"},
+	{60, -1, "0"}, {60, 40, "0.0"},
+}
+
+func c09LayerDim(s *c09Space) {
+	var names []string
+	for _, l := range c09Layers {
+		names = append(names, fmt.Sprintf("cluster=%d/anno=%d/label=%q=>%d", l.Cluster, l.Anno, l.Label, l.effective()))
+	}
+	s.add(c09Dim{name: "margin(reclaim% through cluster<-annotation<-label)", n: len(c09Layers), cons: true, desc: c09Strs(names),
+		set: func(c *c09Case, d int) { l := c09Layers[d]; c.Layer, c.Reclaim = &l, l.effective() }})
 }
 
 func (c *c09Case) clone() c09Case {
@@ -215,6 +263,19 @@ func c09Build(c *c09Case) (*configuration.ColocationStrategy, *corev1.Node, *cor
 	}
 	if c.ARes > 0 {
 		node.Annotations = map[string]string{extension.AnnotationNodeReservation: c09ResAnnoTab[c.Cap][c.ARes]}
+	}
+	if l := c.Layer; l != nil {
+		st.CPUReclaimThresholdPercent, st.MemoryReclaimThresholdPercent = c09I64(l.Cluster), c09I64(l.Cluster)
+		if l.Anno >= 0 {
+			if node.Annotations == nil {
+				node.Annotations = map[string]string{}
+			}
+			node.Annotations[extension.AnnotationNodeColocationStrategy] = fmt.Sprintf(`{"cpuReclaimThresholdPercent":%d,"memoryReclaimThresholdPercent":%d}`, l.Anno, l.Anno)
+		}
+		if l.Label != "" {
+			node.Labels = map[string]string{extension.LabelCPUReclaimRatio: l.Label, extension.LabelMemoryReclaimRatio: l.Label}
+		}
+		st = sloconfig.GetNodeColocationStrategy(&configuration.ColocationCfg{ColocationStrategy: *st}, node)
 	}
 	pl := &corev1.PodList{Items: make([]corev1.Pod, len(c.Pods))}
 	nm := &slov1alpha1.NodeMetric{
@@ -1273,6 +1334,23 @@ func TestVerifC09Node(t *testing.T) {
 		c09EnvDims(sp, []int64{0, 3}, []int64{0, 3}, sys3, host2, dang3, []int64{1})
 		sp.addPods(1, onePod)
 		c09StrategyDims(sp, c09PolPairs, c09Reclaim2, []int64{-1, 30})
+		c09Run(env, sp)
+	}
+	// (1b) where the safety margin comes from: cluster strategy <- node annotation <- node label, through the real
+	// sloconfig.GetNodeColocationStrategy (seed C09-6: a label ratio of exactly 0 means "reclaim nothing")
+	{
+		sp := &c09Space{unit: "node", part: "node-1pod-margin-layers", base: c09Base(), share: 0.1}
+		c09CapDim(sp, []int64{0})
+		c09EnvDims(sp, []int64{0, 3}, []int64{0}, []int64{0, 2}, []int64{0}, []string{""}, []int64{0})
+		sp.addPods(1, c09PodAlpha{prio: []string{"prod", "batch"}, qos: []string{"LS"}, phase: []string{"Running"}, req: []int64{0, 2}, use: []int64{-1, 1, 3}})
+		var names []string
+		for _, p := range c09PolPairs {
+			names = append(names, p[0]+"/"+p[1])
+		}
+		sp.add(c09Dim{name: "cpu-policy/memory-policy", n: len(c09PolPairs), desc: c09Strs(names),
+			set: func(c *c09Case, d int) { c.CPUPol, c.MemPol = c09PolPairs[d][0], c09PolPairs[d][1] }})
+		c09LayerDim(sp)
+		sp.addI64("batch-threshold%(-1=nil)", []int64{-1, 30}, false, 0, func(c *c09Case, v int64) { c.Pct = v })
 		c09Run(env, sp)
 	}
 	// (2) two pods
